@@ -144,7 +144,14 @@ def cycle(spec, cfg, tmp, ncycles=4, origin=None, read_function=None, record=Fal
             spec = O.dump(A)
             wkw = {}
             cfg = dict(cfg, xp=list(A.extra_precision), echo=A.echo_extra_precision)
-        want = O.canon(spec, cfg)
+        try:
+            want = O.canon(spec, cfg)
+        except OverflowError as e:
+            if origin is None:
+                raise                      # a generated value that does not fit its field is a generator fault
+            # the object the real reader made of a corpus file holds a value that does not fit its own field
+            V('misread:' + type(e).__name__, 'the object read from %s cannot be written back: %s' % (origin[0], e))
+            return viol, info
         events = info.setdefault('events', [])
         before = O.dump(A) if record else None
         call_real('write1', A.write, str(dirs[0] / MAIN), mesh_arg(cfg, dirs[0]), **wkw)
